@@ -330,10 +330,10 @@ where
         let mut left_cumulative = cdf.next().expect("cdf is not empty");
         let cdf = cdf.chain(core::iter::once(wrapping_pow2(PRECISION)));
 
-        let symbol_table = symbols
-            .into_iter()
-            .zip(cdf)
-            .map(|(symbol, right_cumulative)| {
+        let mut symbols = symbols.into_iter();
+        let mut symbol_table = cdf
+            .zip(&mut symbols)
+            .map(|(right_cumulative, symbol)| {
                 let probability = right_cumulative
                     .wrapping_sub(&left_cumulative)
                     .into_nonzero()
@@ -341,9 +341,20 @@ where
                 let old_left_cumulative = left_cumulative;
                 left_cumulative = right_cumulative;
                 (symbol, old_left_cumulative, probability)
-            });
+            })
+            .peekable();
 
-        Ok(Self::from_symbol_table(symbol_table))
+        if symbol_table.peek().is_none() {
+            return Err(());
+        }
+        let model = Self::from_symbol_table(symbol_table);
+        if model.cdf.len() != probabilities.len() + 1 || symbols.next().is_some() {
+            // `symbols` and `probabilities` have different lengths (too few symbols would
+            // also leave the lookup table shorter than `1 << PRECISION`).
+            return Err(());
+        }
+
+        Ok(model)
     }
 
     /// Deprecated constructor.
